@@ -3,13 +3,21 @@
 Two kinds of cases.
 
 {"kind": "text", "lines": [line bodies without "\\n"], "final_nl": bool, "aea": bool,
- "form": "str" | "bytes" | "lines" | "lines-nl" | "file"}
-    the text is "\\n".join(lines) (+ "\\n"); ``aea`` is allow_empty_author.
+ "form": one of FORMS}
+    the text is "\\n".join(lines) (+ "\\n"); ``aea`` is allow_empty_author.  ``form`` is the way the
+    text is handed to the constructor (every documented kind of IterableDataSource):
+      "str"        one str                      "bytes"      one bytes object (UTF-8)
+      "lines"      list of str, no "\\n"         "blines"     list of bytes lines, no b"\\n"
+      "lines-nl"   list of str, each with "\\n"  "blines-nl"  list of bytes lines, each with b"\\n"
+      "file"       text file object (StringIO)  "bfile"      binary file object (BytesIO)
+    Totality, strict/lenient consistency and the normal form are demanded in each form alike (no
+    cross-form comparison: the statement does not promise one).
 
-{"kind": "history", "base": null | [line bodies], "aea": bool, "steps": [...]}
-    base null = Changelog(); otherwise the lines are parsed leniently (a base that does not parse
-    cleanly is still a "parsed changelog").  Steps (block indices are taken modulo len(cl); a step
-    that is not applicable, or whose value is not valid for the format, is skipped):
+{"kind": "history", "base": null | [line bodies], "aea": bool, "steps": [...], "form": one of FORMS}
+    base null = Changelog(); otherwise the lines are parsed leniently in the given form (missing =
+    "str"; a base that does not parse cleanly is still a "parsed changelog"); the formatted text
+    is re-parsed in that form too.  Steps (block indices are taken modulo len(cl); a step that is
+    not applicable, or whose value is not valid for the format, is skipped):
       ["new_block", {package, version, distributions, urgency, urgency_comment, changes, author,
                      date, other_pairs, version_object}]      missing / null = not given
       ["add_change", line]                     Changelog.add_change
@@ -35,21 +43,25 @@ from debian.debian_support import Version
 ID = "C15"
 LEVEL = "exploration"
 RULE = ("enumerated: every pool line (thorough: every ordered pair) inserted at every position of a fixed "
-        "two-block changelog, and substituted for every line. text cases: lines of a well-formed changelog (C04 grammar, <=3 blocks) after 0..4 "
+        "two-block changelog, and substituted for every line, each in all 8 input forms (pairs: str, plus "
+        "the 7 other forms for pairs that start with a mode line, comment or old-format marker). text cases: lines of a well-formed changelog (C04 grammar, <=3 blocks) after 0..4 "
         "insert/delete/duplicate/swap operations, inserts drawn from a pool with representatives of "
         "every line class of the parser (junk, bare and damaged trailers, second/damaged headers, "
         "editor mode lines, comments, CVS keywords, the eight old-format patterns, whitespace-only "
         "and line-boundary oddities) or from a wide Unicode alphabet; plus free documents of 0..8 "
-        "such lines; x final newline x allow_empty_author x 5 input forms; thorough adds an Atheris "
+        "such lines; x final newline x allow_empty_author x 8 input forms (str, bytes, list of str / of "
+        "bytes lines with and without line ends, text and binary file object); thorough adds an Atheris "
         "byte-level campaign. history cases: 1..6 editing calls (new_block, add_change, attribute "
         "assignment, set_version; values valid for the format) on an empty changelog, on a parsed "
-        "well-formed one or on a leniently parsed damaged one, normal form checked after every step. "
+        "well-formed one or on a leniently parsed damaged one (parsed from any of the 8 input forms), normal form checked after every step. "
         "Non-trivial = a text that produces >=1 warning, or a history with >=2 applied edits; "
         "distinct = distinct canonical JSON of the case")
 ASSUMPTIONS = [
     "strict and lenient runs are separate constructor calls on equal inputs; warnings are collected with simplefilter('always')",
     "the formatted text is re-parsed in the same input form as the original (a list/file input keeps "
     "characters such as FF or U+2028 inside a line, where str input splits on them: DESIGN.md section 6)",
+    "bytes forms carry the UTF-8 encoding of the text (the constructor's default encoding); file objects are "
+    "io.StringIO(newline='\\n') / io.BytesIO, whose iteration cuts at LF only, like open(..., newline='\\n') / open(..., 'rb')",
     "blocks are compared on package, version (raw string when it is not a valid version), distributions, "
     "urgency, urgency_comment, other_pairs (as a mapping), changes, author, date",
     "history values are restricted to what the format can spell (recogniser in gen/c04_changelog.py)",
@@ -59,12 +71,15 @@ ASSUMPTIONS = [
 EXHAUSTIVE = {
     "quick": "every line of the 103-line junk pool (all line classes of the parser) inserted at each of "
              "the 12 positions of a fixed two-block changelog x allow_empty_author, and substituted "
-             "for each of its 11 lines",
-    "thorough": "as quick, plus every ordered pair of pool lines inserted together at each of the 12 positions",
+             "for each of its 11 lines, each x the 8 input forms (so every mode line, comment and "
+             "old-format marker occurs in every form at every position, with and without lines after it)",
+    "thorough": "as quick, plus every ordered pair of pool lines inserted together at each of the 12 positions "
+                "(str form; pairs whose first line is a mode line, comment/CVS keyword or old-format marker "
+                "also in the 7 other forms)",
 }
 BUDGET = {"quick": 200, "thorough": 1500}
 
-FORMS = ["str", "bytes", "lines", "lines-nl", "file"]
+FORMS = ["str", "bytes", "lines", "lines-nl", "file", "blines", "blines-nl", "bfile"]
 # Deviation recognised by the dual model in check_normal_form (see known_findings.json / DESIGN 2.6).
 KNOWN_ID = "trailerless-block-drops-author-date"
 EDITABLE = ["package", "version", "distributions", "urgency", "author", "date"]
@@ -93,6 +108,12 @@ def make_input(form, lines, final_nl):
         return out
     if form == "file":
         return io.StringIO(text, newline="\n")
+    if form == "blines":
+        return [l.encode("utf-8") for l in lines]
+    if form == "blines-nl":
+        return [l.encode("utf-8") for l in make_input("lines-nl", lines, final_nl)]
+    if form == "bfile":
+        return io.BytesIO(text.encode("utf-8"))
     raise ValueError(form)
 
 
@@ -283,7 +304,7 @@ def check_text(case):
         labels.add("output==input")
     elif s is not None:
         labels.add("output!=input")
-    _line_class_labels(lines, labels)
+    _line_class_labels(lines, labels, form)
     _state_labels(cl, labels)
     return (bool(msgs), sorted(labels))
 
@@ -291,17 +312,24 @@ def check_text(case):
 _LINE_CLASSES = [
     ("has:vim-or-emacs", _re.compile(r"^(vim:|(;;\s*)?Local variables:)", _re.I)),
     ("has:comment-or-cvs", _re.compile(r"^(# |/\*.*\*/|\$\w+:.*\$)")),
-    ("has:old-format", _re.compile(r"^(\w+\s+\w+\s+\d{1,2}[ ,]|Changes (from|for) |Old Changelog:|[\w.+-]+(-| )\S+ Debian )", _re.I)),
+    ("has:old-format", _re.compile(r"^(\w+\s+\w+\s+\d{1,2}[ ,]|Changes (from|for) |Old Changelog:|[\w.+-]+(-| )\S+ Debian "
+                                   r"|(\d+:)?\w[\w.+~-]*:?\s*$)", _re.I)),
     ("has:bare-trailer", _re.compile(r"^ --\s*$")),
     ("has:header-like", _re.compile(r"^\w\S* \(\S*\)")),
 ]
 
 
-def _line_class_labels(lines, labels):
-    for l in lines:
+_SILENT_CLASSES = ("has:vim-or-emacs", "has:comment-or-cvs", "has:old-format")
+
+
+def _line_class_labels(lines, labels, form):
+    for i, l in enumerate(lines):
         for name, rx in _LINE_CLASSES:
             if rx.match(l):
                 labels.add(name)
+                if name in _SILENT_CLASSES and i + 1 < len(lines):
+                    # a line the parser may swallow silently, with more input after it, in this form
+                    labels.add("followed:%s@%s" % (name[4:], form))
         if any(c in l for c in G.LINE_BOUNDARIES):
             labels.add("has:line-boundary-char")
         if l and l.strip() == "" and l.strip(" \t") != "":
@@ -411,19 +439,23 @@ def check_history(case):
     if not isinstance(steps, list) or not (base is None or valid_lines(base)):
         return (False, ("invalid-case-skipped",))
     aea = bool(case.get("aea"))
+    form = case.get("form", "str")
+    if form not in FORMS:
+        return (False, ("invalid-case-skipped",))
     labels = set()
     trailerless = None
     if base is None:
         cl = Changelog()
         labels.add("base:empty")
     else:
-        cl, msgs = lenient(join_text(base, True), aea, join_text(base, True))
+        cl, msgs = lenient(make_input(form, base, True), aea, join_text(base, True))
+        labels.add("base-form:" + form)
         labels.add("base:parsed-with-warnings" if msgs else "base:parsed-clean")
         if msgs and warning_class(msgs[-1]).startswith("eof@") and len(cl) > 0:
             trailerless = cl[len(cl) - 1]     # input ended inside this block
             labels.add("base:ends-inside-block")
     applied = 0
-    check_normal_form(cl, "str", aea, labels, "before any edit: ")
+    check_normal_form(cl, form, aea, labels, "before any edit: ")
     for i, step in enumerate(steps):
         lab = apply_step(cl, step)
         if lab is None:
@@ -431,7 +463,7 @@ def check_history(case):
             continue
         applied += 1
         labels.add(lab)
-        check_normal_form(cl, "str", aea, labels, "after step %d %s: " % (i, short(step, 120)), trailerless)
+        check_normal_form(cl, form, aea, labels, "after step %d %s: " % (i, short(step, 120)), trailerless)
     labels.add("edits:%s" % (applied if applied < 4 else "4+"))
     labels.add("final-blocks:%s" % (len(cl) if len(cl) < 3 else "3+"))
     return (applied >= 2, sorted(labels))
@@ -468,27 +500,35 @@ ENUM_BASE = [
 ENUM_POOL = list(dict.fromkeys(G.JUNK))
 
 
-def _text_case(lines, aea):
-    return {"kind": "text", "lines": lines, "final_nl": True, "aea": aea, "form": "str"}
+# lines after which the parser may stop looking at what follows (or may swallow silently)
+ENUM_SILENT = frozenset(l for k in ("modeline", "comment", "oldformat") for l in G.JUNK_CLASSES[k])
+
+
+def _text_case(lines, aea, form="str"):
+    return {"kind": "text", "lines": lines, "final_nl": True, "aea": aea, "form": form}
 
 
 def enum_single():
-    for p in range(len(ENUM_BASE) + 1):
-        for j in ENUM_POOL:
-            for aea in (False, True):
-                yield _text_case(ENUM_BASE[:p] + [j] + ENUM_BASE[p:], aea)
-    for p in range(len(ENUM_BASE)):
-        for j in ENUM_POOL:
-            yield _text_case(ENUM_BASE[:p] + [j] + ENUM_BASE[p + 1:], False)
+    for form in FORMS:
+        for p in range(len(ENUM_BASE) + 1):
+            for j in ENUM_POOL:
+                for aea in (False, True):
+                    yield _text_case(ENUM_BASE[:p] + [j] + ENUM_BASE[p:], aea, form)
+        for p in range(len(ENUM_BASE)):
+            for j in ENUM_POOL:
+                yield _text_case(ENUM_BASE[:p] + [j] + ENUM_BASE[p + 1:], False, form)
 
 
 def enum_double():
     for case in enum_single():
         yield case
-    for p in range(len(ENUM_BASE) + 1):
-        for j1 in ENUM_POOL:
-            for j2 in ENUM_POOL:
-                yield _text_case(ENUM_BASE[:p] + [j1, j2] + ENUM_BASE[p:], False)
+    for form in FORMS:
+        for p in range(len(ENUM_BASE) + 1):
+            for j1 in ENUM_POOL:
+                if form != "str" and j1 not in ENUM_SILENT:
+                    continue
+                for j2 in ENUM_POOL:
+                    yield _text_case(ENUM_BASE[:p] + [j1, j2] + ENUM_BASE[p:], False, form)
 
 
 # ------------------------------------------------------------------------------------------
@@ -575,6 +615,7 @@ _steps = st.lists(gen_step, min_size=1, max_size=6)
 _aea_rarely = st.sampled_from([False, False, True])
 _clean_base = G.structs(max_blocks=2)
 _damaged_base = G.mutated_lines(max_ops=2)
+_forms_mostly_str = st.sampled_from(["str"] * (len(FORMS) - 1) + FORMS)
 
 
 @st.composite
@@ -595,7 +636,10 @@ def gen_history(draw):
         steps = draw(_steps)
         if which != "clean" and draw(_aea):
             steps.insert(draw(G._index(len(steps) + 1)), draw(_finish))
-    return {"kind": "history", "base": base, "aea": draw(_aea_rarely), "steps": steps}
+    case = {"kind": "history", "base": base, "aea": draw(_aea_rarely), "steps": steps}
+    if base is not None:
+        case["form"] = draw(_forms_mostly_str)
+    return case
 
 
 # ------------------------------------------------------------------------------------------
